@@ -2,7 +2,7 @@
 (* Model-checking / behaviour-generation configuration of Socks5.           *)
 EXTENDS Socks5, Json
 
-CONSTANT Tier        \* "quick" | "thorough"
+CONSTANT Tier        \* "quick" | "thorough" | "tun" (only the tunnel-level slice: run by C02 and C20 as well)
 
 Neg1 == 0 - 1
 
@@ -20,7 +20,15 @@ MkNone       == [src |-> "none", raw |-> << >>, x |-> << >>, valid |-> TRUE]
 
 NoneName == << "x", "none", 0 >>
 
-AuthNames ==
+\* Credentials in odd shapes whose halves are long and unique, so that a log record (C20) or a
+\* message carrying them - verbatim, base64 or decoded - is recognisable
+CanU == << 75, 113, 55, 45, 117, 115, 101, 114, 45, 99, 97, 110, 97, 114, 121, 45, 90, 120, 49 >>   \* "Kq7-user-canary-Zx1"
+CanP == << 87, 109, 52, 45, 112, 97, 115, 115, 45, 99, 97, 110, 97, 114, 121, 45, 89, 118, 56 >>    \* "Wm4-pass-canary-Yv8"
+CanQ == << 74, 116, 50, 45, 109, 111, 114, 101, 45, 99, 97, 110, 97, 114, 121, 45, 66, 110, 53 >>   \* "Jt2-more-canary-Bn5"
+CanaryShapes == {"c-plain", "c-nocolon", "c-emptyuser", "c-emptypass", "c-multi", "c-badutf", "c-junk", "c-padless"}
+CanaryNames == { << "cn", sh, 0 >> : sh \in CanaryShapes }
+
+CoreAuthNames ==
     { << "b", n, m >> : n \in Lens, m \in Lens }                 \* ASCII user 'u'*n, password 'p'*m
     \cup { << "mb", 256, 1 >>, << "mb", 255, 255 >>, << "mb", 1, 256 >>, << "mb", 600, 2 >>, << "mb", 2, 2 >>,
            << "mb", 254, 256 >> }                                \* two-byte characters: bytes # characters
@@ -28,8 +36,24 @@ AuthNames ==
     \cup { << "x", "colon", 0 >>, << "x", "colon0", 0 >>, << "x", "nocolon", 0 >>, << "x", "badutf", 0 >>,
            << "x", "junk", 0 >>, << "x", "padless", 0 >>, NoneName }
 
+\* (the canary shapes are the shapes of the "x" family with recognisable halves: they go through the
+\* tunnel-level slice, where log records are searched; the other slices keep the short ones)
+AuthNames == CoreAuthNames \cup CanaryNames
+
+CanaryKind(sh) ==
+    CASE sh = "c-plain"     -> MkBasic(CanU \o << Colon >> \o CanP)
+      [] sh = "c-nocolon"   -> MkBasic(CanU)                                          \* a bare token
+      [] sh = "c-emptyuser" -> MkBasic(<< Colon >> \o CanP)
+      [] sh = "c-emptypass" -> MkBasic(CanU \o << Colon >>)
+      [] sh = "c-multi"     -> MkBasic(CanU \o << Colon >> \o CanP \o << Colon >> \o CanQ)
+      [] sh = "c-badutf"    -> MkBasic(CanU \o << Colon, 255 >> \o CanP)               \* not UTF-8
+      [] sh = "c-junk"      -> MkJunk(<< 33, 33 >> \o CanU \o << Colon >> \o CanP)      \* not base64
+      \* "user:" has 20 octets: its base64 form ends in one '='; without it it is not base64 (RFC 4648 4)
+      [] sh = "c-padless"   -> LET e == B64Enc(CanU \o << Colon >>) IN MkJunk(SubSeq(e, 1, Len(e) - 1))
+
 AuthKind(nm) ==
-    CASE nm[1] = "b"   -> MkBasic(Rep(117, nm[2]) \o << Colon >> \o Rep(112, nm[3]))
+    CASE nm[1] = "cn"  -> CanaryKind(nm[2])
+      [] nm[1] = "b"   -> MkBasic(Rep(117, nm[2]) \o << Colon >> \o Rep(112, nm[3]))
       [] nm[1] = "mb"  -> MkBasic(Mb(nm[2], 117) \o << Colon >> \o Mb(nm[3], 112))
       [] nm[1] = "sni" -> MkSni(Rep(104, nm[2]))
       [] nm[2] = "colon"   -> MkBasic(<< 97, 98, 58, 99, 58, 100, 58 >>)       \* "ab:c:d:"
@@ -54,7 +78,28 @@ MethodFor(a, e) == IF a = NoneName THEN MNoAuth ELSE IF e = "no" THEN MUserPass 
 --------------------------------------------------------------------------
 (* destinations *)
 
-DestNames == {"v4", "v6", "dom0", "dom1", "dom255", "dom256", "dom300", "dom254mb", "dom256mb", "udp"}
+\* IP literals with a structure of their own: an address is sent as the client named it, octet
+\* for octet and with its own type - an IPv6 address that embeds an IPv4 address (IPv4-mapped,
+\* IPv4-compatible, NAT64, 6to4) is still an IPv6 destination, the wildcard / loopback /
+\* broadcast addresses are ordinary octets
+V4In == << 203, 0, 113, 9 >>
+SpecialIps ==
+    [ v6mapped  |-> Zeros(10) \o << 255, 255 >> \o V4In,                    \* ::ffff:203.0.113.9
+      v6mapped0 |-> Zeros(10) \o << 255, 255 >> \o Zeros(4),                \* ::ffff:0.0.0.0
+      v6mappedlo |-> Zeros(10) \o << 255, 255, 127, 0, 0, 1 >>,             \* ::ffff:127.0.0.1
+      v6compat  |-> Zeros(12) \o V4In,                                      \* ::203.0.113.9
+      v6nat64   |-> << 0, 100, 255, 155 >> \o Zeros(8) \o V4In,             \* 64:ff9b::203.0.113.9
+      v6sixto4  |-> << 32, 2 >> \o V4In \o Zeros(10),                       \* 2002:cb00:7109::
+      v6any     |-> Zeros(16),                                              \* ::
+      v6lo      |-> Zeros(15) \o << 1 >>,                                   \* ::1
+      v4any     |-> Zeros(4),
+      v4lo      |-> << 127, 0, 0, 1 >>,
+      v4bcast   |-> << 255, 255, 255, 255 >> ]
+\* (written out: the domain of the destination table is consulted at every reference to a destination)
+SpecialIpNames == {"v6mapped", "v6mapped0", "v6mappedlo", "v6compat", "v6nat64", "v6sixto4", "v6any", "v6lo", "v4any", "v4lo", "v4bcast"}
+ASSUME SpecialIpNames = DOMAIN SpecialIps
+
+DestNames == {"v4", "v6", "dom0", "dom1", "dom255", "dom256", "dom300", "dom254mb", "dom256mb", "udp"} \cup SpecialIpNames
 
 DestKind(nm) ==
     CASE nm = "v4"       -> [cmd |-> CmdConnect, addr |-> [t |-> "ip", a |-> << 10, 1, 2, 3 >>], port |-> 80]
@@ -68,6 +113,8 @@ DestKind(nm) ==
       [] nm = "dom256mb" -> [cmd |-> CmdConnect, addr |-> [t |-> "name", a |-> Mb(256, 100)], port |-> 80]
       \* UDP ASSOCIATE: the client names the wildcard address and the port of its own socket
       [] nm = "udp"      -> [cmd |-> CmdUdpAssociate, addr |-> [t |-> "ip", a |-> << 0, 0, 0, 0 >>], port |-> 0]
+      \* (last: this operator is evaluated at every reference to a destination)
+      [] OTHER           -> [cmd |-> CmdConnect, addr |-> [t |-> "ip", a |-> SpecialIps[nm]], port |-> 443]
 
 MCDestKinds == [nm \in DestNames |-> DestKind(nm)]
 
@@ -94,7 +141,10 @@ MCBndKinds == [nm \in BndNames |->
 Base == [ auth |-> << "b", 1, 1 >>, ext |-> "no", dest |-> "v4",
           mver |-> 5, method |-> MUserPass, aver |-> 1, astatus |-> 0,
           rver |-> 5, rep |-> 0, rsv |-> 0, bnd |-> "v4", tail |-> 2,
-          trunc |-> Neg1, exact |-> FALSE, chunks |-> << >>, preload |-> FALSE ]
+          trunc |-> Neg1, exact |-> FALSE, exactIfFail |-> FALSE, chunks |-> << >>, preload |-> FALSE,
+          \* tunnel level: the scenario is also run through the real Tunnel with the SOCKS5 forwarder,
+          \* the client uploading `up` octets once the tunnel is established
+          tun |-> FALSE, up |-> 0 ]
 
 \* the server a well-behaved deployment has for these credentials
 Natural(a, e) == [Base EXCEPT !.auth = a, !.ext = e, !.method = MethodFor(a, e),
@@ -124,8 +174,8 @@ ExtAuthNames == { << "b", 1, 1 >>, << "b", 0, 0 >>, << "b", 600, 600 >>, << "b",
                   << "sni", 32, 0 >>, << "sni", 256, 0 >>,
                   << "x", "colon", 0 >>, << "x", "nocolon", 0 >>, << "x", "badutf", 0 >>, << "x", "junk", 0 >> }
 
-AuthExtPairs == { << a, "no" >> : a \in AuthNames }
-                \cup { << a, e >> : a \in (IF Tier = "thorough" THEN AuthNames \ {NoneName} ELSE ExtAuthNames),
+AuthExtPairs == { << a, "no" >> : a \in CoreAuthNames }
+                \cup { << a, e >> : a \in (IF Tier = "thorough" THEN CoreAuthNames \ {NoneName} ELSE ExtAuthNames),
                                     e \in {"e4ua", "e6"} }
 
 AuthScn(a, e, mo) ==
@@ -159,8 +209,11 @@ ReqScn(a, d, o) ==
       : mode \in SegModes }
 
 ReqSlice ==
-    UNION { ReqScn(a, d, o) : a \in ReqAuths, d \in DestNames \ {"udp"},
+    UNION { ReqScn(a, d, o) : a \in ReqAuths, d \in DestNames \ ({"udp"} \cup SpecialIpNames),
                               o \in IF Tier = "thorough" THEN RepOpts ELSE SmallRepOpts }
+    \* (the structured IP literals with one reply here - thorough: three; destination x bound address is in the tunnel-level slice)
+    \cup UNION { ReqScn(a, d, o) : a \in (IF Tier = "thorough" THEN ReqAuths ELSE {NoneName}), d \in SpecialIpNames,
+                                    o \in (IF Tier = "thorough" THEN SmallRepOpts ELSE {[rver |-> 5, rep |-> 0, rsv |-> 0, bnd |-> "v4"]}) }
     \cup UNION { ReqScn(a, "v4", o) : a \in ReqAuths, o \in RepOpts }
     \cup UNION { ReqScn(a, "udp", o) : a \in ReqAuths, o \in UdpRepOpts }
 
@@ -204,7 +257,55 @@ SegSlice == UNION { SegScn(r) : r \in Reps }
 \* scripted server has not read yet.
 ExactSlice == { [s EXCEPT !.exact = TRUE] : s \in { u \in AuthSlice \cup ReqSlice : u.chunks = << >> } }
 
-MCScenarios == AuthSlice \cup ReqSlice \cup SegSlice \cup ExactSlice
+\* --- slice 5: tunnel level.  The dialogue is the first thing on the connection that then carries
+\* the tunnel: a server that answers and then relays a destination which sends `tail` octets and
+\* receives the client's `up` octets.  Replayed through the forwarder's TCP connector (its pipe
+\* ends are read / written) and through the real Tunnel + HTTP codecs with the SOCKS5 forwarder,
+\* the credentials arriving as Proxy-Authorization / SNI credentials of the request.  Failing
+\* dialogues end where the client stops (as in slice 4); every class of credentials is there,
+\* the odd shapes included, against a server that accepts, refuses, or answers out of turn.
+TunFail(s) == [s EXCEPT !.tun = TRUE, !.tail = 0, !.exact = TRUE]
+\* (a dialogue that fails whatever the server says - credentials that cannot be used or said - ends where the client stops)
+Tun(s, tail, up) == [s EXCEPT !.tun = TRUE, !.tail = tail, !.up = up, !.exactIfFail = TRUE]
+
+\* a UDP multiplexer request with credentials: the forwarder checks them by a UDP ASSOCIATE dialogue
+\* (DatagramMuxAuthenticator::check_auth) towards the harness's relay before the request is answered
+TunUdp(s) == [s EXCEPT !.tun = TRUE, !.dest = "udp", !.bnd = "relay4", !.tail = 0, !.exactIfFail = TRUE]
+
+TunAuthPairs == { << a, "no" >> : a \in AuthNames }
+                \cup { << a, "e6" >> : a \in ExtAuthNames \cup { << "cn", "c-plain", 0 >>, << "cn", "c-nocolon", 0 >>, << "cn", "c-junk", 0 >> } }
+TunOddAuths == CanaryNames \cup { << "b", 1, 1 >>, << "sni", 32, 0 >>, << "x", "colon", 0 >> }
+SuccessBnds == {"v4", "v6", "dom0", "dom3", "dom255"}
+
+TunSlice ==
+    \* every credentials class, a server that plays along, a host-name destination
+    { Tun([Natural(pr[1], pr[2]) EXCEPT !.dest = "dom1"], 41, 29) : pr \in TunAuthPairs }
+    \* servers that refuse or answer out of turn, with client-controlled credentials in every shape
+    \cup UNION { { TunFail([Natural(a, e) EXCEPT !.astatus = 1]),                               \* credentials refused
+                   TunFail([Natural(a, e) EXCEPT !.method = 255, !.aver = Neg1]),               \* no acceptable method
+                   TunFail([Natural(a, e) EXCEPT !.aver = 5]),                                  \* malformed sub-negotiation reply
+                   TunFail([Natural(a, e) EXCEPT !.rep = 1]),                                   \* general failure
+                   TunFail([Natural(a, e) EXCEPT !.rep = 5, !.bnd = "dom3"]),                   \* refused by the destination
+                   Tun([Natural(a, e) EXCEPT !.method = MNoAuth, !.aver = Neg1], 7, 3) }        \* NoAuthAccepted
+                 : a \in TunOddAuths, e \in {"no", "e6"} }
+    \* destination x bound address of a successful reply (what follows the reply is the destination's)
+    \cup { Tun([Natural(a, "no") EXCEPT !.dest = d, !.bnd = b], 41, 29)
+           : a \in ReqAuths, d \in DestNames \ {"udp"}, b \in SuccessBnds }
+    \cup { TunFail([Natural(a, "no") EXCEPT !.dest = d, !.rep = r])
+           : a \in ReqAuths, d \in {"v4", "v6", "v6mapped", "dom255"}, r \in {2, 3, 4, 6, 8} }
+    \cup UNION { { TunUdp(Natural(a, e)), TunUdp([Natural(a, e) EXCEPT !.astatus = 1]), TunUdp([Natural(a, e) EXCEPT !.rep = 1]) }
+                 : a \in TunOddAuths, e \in {"no", "e6"} }
+    \cup { TunUdp(Natural(a, "no")) : a \in { << "b", 256, 1 >>, << "b", 1, 256 >>, << "mb", 254, 256 >>, << "sni", 256, 0 >> } }
+    \* a destination that says nothing, one that says a lot
+    \cup { Tun([Natural(NoneName, "no") EXCEPT !.bnd = b], 0, 0) : b \in {"v4", "v6"} }
+    \cup { Tun([Natural(a, "no") EXCEPT !.bnd = b], 5000, 3000) : a \in ReqAuths, b \in {"v6", "dom255"} }
+
+\* (the tunnel-level slice is checked and exported by a run of its own, Tier = "tun")
+MCScenarios == IF Tier = "tun" THEN TunSlice
+               ELSE AuthSlice \cup ReqSlice \cup SegSlice \cup ExactSlice
+
+\* the client's upload (position-coded)
+Upload(n) == [i \in 1..n |-> (i * 11 + 3) % 253]
 
 --------------------------------------------------------------------------
 (* export: one line per behaviour *)
@@ -216,6 +317,9 @@ EmitBehaviour ==
     Done => PrintT(<< "BEH", ToJson([ scn |-> scn, stream |-> stream, emit |-> emitted, used |-> consumed,
                                      accept |-> cls, acceptReq |-> { ReqClass(t) : t \in cls },
                                      relayPortAt |-> IF scn.bnd = "relay4" THEN BndPortAt(scn) ELSE 0,
+                                     \* the tunnel: what the client must get, what the server must get after the messages
+                                     down |-> IF scn.tun /\ "Established" \in cls THEN Remainder ELSE << >>,
+                                     upload |-> IF scn.tun THEN Upload(scn.up) ELSE << >>,
                                      hist |-> hist ]) >>)
 
 --------------------------------------------------------------------------
@@ -233,9 +337,17 @@ ASSUME \A pr \in AllAuthExtPairs :
                               tls |-> TlsDomain, ua |-> UserAgent,
                               client |-> IF pr[2] = "e6" THEN Client6 ELSE Client4 ]) >>)
 
+\* the class of a destination as signatures name it
+DestForm(d) ==
+    IF d.addr.t = "name" THEN "name"
+    ELSE IF Len(d.addr.a) = 4 THEN "ip4"
+    ELSE IF SubSeq(d.addr.a, 1, 12) = Zeros(10) \o << 255, 255 >> THEN "ip6-mapped"
+    ELSE IF SubSeq(d.addr.a, 1, 12) = Zeros(12) THEN "ip6-low"          \* ::, ::1, IPv4-compatible
+    ELSE "ip6"
+
 ASSUME \A nm \in DestNames :
     LET d == DestTab[nm] IN
-    PrintT(<< "DEST", ToJson([ dest |-> nm, cmd |-> d.cmd, kind |-> d.addr.t, addr |-> d.addr.a, port |-> d.port,
+    PrintT(<< "DEST", ToJson([ dest |-> nm, cmd |-> d.cmd, kind |-> d.addr.t, form |-> DestForm(d), addr |-> d.addr.a, port |-> d.port,
                               enc |-> d.enc, msg |-> IF d.enc THEN d.msg ELSE << >>,
                               wildPort |-> d.cmd = CmdUdpAssociate ]) >>)
 
@@ -245,7 +357,9 @@ ASSUME \A nm \in DestNames :
 V4a == << 10, 0, 0, 1 >>
 V6a == << 32, 1, 13, 184, 0, 0, 0, 0, 0, 0, 0, 0, 0, 0, 0, 1 >>
 UdpPayloads == { << >>, << 7 >>, << 0, 255, 3 >>, Rep(200, 1200), Rep(0, 9000) }
-UdpPeers == { << V4a, 53 >>, << << 255, 255, 255, 255 >>, 65535 >>, << V6a, 443 >>, << Client6, 0 >>, << << 0, 0, 0, 0 >>, 256 >> }
+UdpPeers == { << V4a, 53 >>, << << 255, 255, 255, 255 >>, 65535 >>, << V6a, 443 >>, << Client6, 0 >>, << << 0, 0, 0, 0 >>, 256 >>,
+              \* IPv6 peers that embed an IPv4 address stay IPv6 peers (ATYP X'04', 16 octets)
+              << SpecialIps["v6mapped"], 53 >>, << SpecialIps["v6compat"], 443 >>, << SpecialIps["v6nat64"], 443 >> }
 
 ASSUME \A pe \in UdpPeers, pl \in UdpPayloads :
     PrintT(<< "UDPW", ToJson([ ip |-> pe[1], port |-> pe[2], data |-> pl, bytes |-> UdpWrap(pe[1], pe[2], pl) ]) >>)
